@@ -274,9 +274,29 @@ func Cmp(op string, a, b *Term) *Term {
 	// `if a == b {A} else {B}` and `if a != b {B} else {A}` produce the same conditions.
 	// The ordered comparisons are not complemented: !(x < y) is not x >= y for NaN.
 	if op == "!=" {
-		return Not(&Term{Op: "cmp", S: "==", Args: []*Term{a, b}})
+		return Not(Cmp("==", a, b))
+	}
+	if op == "==" && isStrictBool(a) && isStrictBool(b) {
+		// equality of two truth values: a ? b : !b - so that the conditions stay inside the
+		// fragment the truth-table rules enumerate
+		return Ite(a, b, Not(b))
 	}
 	return &Term{Op: "cmp", S: op, Args: []*Term{a, b}}
+}
+
+// isStrictBool: t is a comparison, a negation, or a gated choice between such (not merely an
+// atom that might be boolean).
+func isStrictBool(t *Term) bool {
+	switch t.Op {
+	case "cmp":
+		return true
+	case "not":
+		return isStrictBool(t.Args[0])
+	case "ite":
+		ok := func(x *Term) bool { return x.Op == "c" || isStrictBool(x) }
+		return ok(t.Args[1]) && ok(t.Args[2])
+	}
+	return false
 }
 
 func Not(a *Term) *Term {
